@@ -2,6 +2,7 @@
 JSON-lines driver for E10a (auto_cli model).  Run with
   lake env lean --run Drv/Cli.lean < cases.jsonl
 Input  {"asPos":bool, "single":bool, "comps":[{"key":[..], "comp":COMP}], "path":[..], "given":GIVEN}
+       optional "ext": {"poTop":[s], "poSub":[s], "sdTop":[[k,VAL]], "sdSub":[[k,VAL]]} (single component only): positional-only names and set_defaults -> autoCliX
   COMP  = {"kind":"func","name":s,"sig":SIG} | {"kind":"cls","name":s,"init":SIG,"methods":[{"name":s,"sig":SIG}]}
   SIG   = [{"name":s,"kind":"pk"|"ko"|"vp"|"vk","dflt":[]|[VAL],"optional":bool}]
   VAL   = null | string
@@ -111,10 +112,14 @@ def step (j : Json) : Json :=
   let parsers := match sel with
     | some c => parsersToJson asPos c
     | none => .null
+  let ext : Option Ext := match j.getObjVal? "ext" with
+    | .ok e => some { poTop := strList e "poTop", poSub := strList e "poSub", sdTop := kvOfJson e "sdTop", sdSub := kvOfJson e "sdSub" }
+    | _ => none
   let res := if getBool j "single" then
-      match comps.head? with
-      | some (_, c) => autoCli body asPos c g
-      | none => .error .crash
+      match comps.head?, ext with
+      | some (_, c), some x => autoCliX body asPos c x g
+      | some (_, c), none => autoCli body asPos c g
+      | none, _ => .error .crash
     else autoCliTree body asPos comps path g
   match res with
   | .ok r => Json.mkObj [("parsers", parsers),
